@@ -9,6 +9,10 @@ analyses are written for.  Each rewrite is the language's own definition of the 
       (the length test is static).  A `match` with any other pattern is left untouched (the analyses then report the function as
       not analysable rather than guess).
 
+  L2  if <test containing (x := e) as the first thing it evaluates>: ...     ->   x = e;  if <test with x>: ...
+      (the walrus is reached from the root of the test through left operands / first arguments only, and every callee name before
+      it is a plain dotted name not rooted at x), so the hoisted assignment runs exactly when and where the walrus did.
+
 New nodes take the position of the node they replace, so reports still point at the original line."""
 from __future__ import annotations
 
@@ -135,6 +139,60 @@ def _lower_match(s: ast.Match, counter):
     return [_loc(n, s) for n in out]
 
 
+def _pure_chain(n, forbidden):
+    while isinstance(n, ast.Attribute):
+        n = n.value
+    return isinstance(n, ast.Name) and n.id != forbidden
+
+
+def _leading_walrus(test):
+    """(parent, field, index, NamedExpr) if the first effectful thing the test evaluates is a walrus with a plain-name target"""
+    parent, fld, idx, cur = None, None, None, test
+    chain = []
+    while True:
+        if isinstance(cur, ast.NamedExpr):
+            if not isinstance(cur.target, ast.Name):
+                return None
+            for fn in chain:
+                if not _pure_chain(fn, cur.target.id):
+                    return None
+            return parent, fld, idx, cur
+        if isinstance(cur, ast.Compare):
+            parent, fld, idx, cur = cur, "left", None, cur.left
+        elif isinstance(cur, ast.BoolOp):
+            parent, fld, idx, cur = cur, "values", 0, cur.values[0]
+        elif isinstance(cur, ast.UnaryOp):
+            parent, fld, idx, cur = cur, "operand", None, cur.operand
+        elif isinstance(cur, ast.BinOp):
+            parent, fld, idx, cur = cur, "left", None, cur.left
+        elif isinstance(cur, ast.Call) and cur.args and not isinstance(cur.args[0], ast.Starred):
+            chain.append(cur.func)
+            parent, fld, idx, cur = cur, "args", 0, cur.args[0]
+        elif isinstance(cur, ast.Subscript):
+            parent, fld, idx, cur = cur, "value", None, cur.value
+        elif isinstance(cur, ast.Attribute):
+            parent, fld, idx, cur = cur, "value", None, cur.value
+        else:
+            return None
+
+
+def _hoist_walrus(s: ast.If):
+    found = _leading_walrus(s.test)
+    if found is None:
+        return None
+    parent, fld, idx, w = found
+    name = ast.Name(id=w.target.id, ctx=ast.Load())
+    ast.copy_location(name, w)
+    if parent is None:
+        s.test = name
+    elif idx is None:
+        setattr(parent, fld, name)
+    else:
+        getattr(parent, fld)[idx] = name
+    asg = ast.Assign(targets=[ast.Name(id=w.target.id, ctx=ast.Store())], value=w.value)
+    return [_loc(asg, s), s]
+
+
 class _Lower(ast.NodeTransformer):
     def __init__(self):
         self.counter = [0]
@@ -148,8 +206,14 @@ class _Lower(ast.NodeTransformer):
                 new = _lower_match(s, self.counter)
                 if new is not None:
                     self.count += 1
-                    out.extend(new)
+                    out.extend(self._block(new) if any(isinstance(x, ast.If) for x in new) else new)
                     continue
+            if isinstance(s, ast.If):
+                new = _hoist_walrus(s)
+                while new is not None:
+                    self.count += 1
+                    out.append(new[0])
+                    new = _hoist_walrus(s)
             out.append(s)
         return out
 
@@ -169,7 +233,7 @@ class _Lower(ast.NodeTransformer):
 
 def lower_module(tree: ast.Module) -> int:
     """rewrite in place; returns the number of constructs lowered"""
-    if not any(isinstance(n, ast.Match) for n in ast.walk(tree)):
+    if not any(isinstance(n, (ast.Match, ast.NamedExpr)) for n in ast.walk(tree)):
         return 0
     lw = _Lower()
     lw.visit(tree)
